@@ -1,9 +1,159 @@
-(* C08 — under construction *)
-From Coq Require Import List NArith ZArith Bool.
+(* C08 — notices are delivered exactly once to polling clients and only to their owner.
+   This file holds the property theorems only: statement, `exact <lemma>`, Print Assumptions.
+   Model: models/Notices.v (overlord/state/notices.go AddNotice / NoticeFilter.matches / Notices function by function,
+   the user / filter logic of daemon/api_notices.go getNotices, and the polling-client cursor protocol).
+
+   Full statement of the property: a client that repeatedly asks for the notices after the last one it saw receives
+   every new or repeated notice exactly once, in occurrence order, and nothing that neither occurred nor repeated
+   since; a user-specific notice is returned only to that user (public ones to everyone); a waiting client is woken
+   when a matching notice occurs.
+   Proved below for every history (any number of additions by anybody, any clock readings including equal and
+   decreasing ones, any repeat-after values, any filter, polls anywhere) whose additions use the server clock.
+   PARTIAL in one respect, named in C08_waiter_enabled_partial: the wake-up itself is sync.Cond (Go runtime), only
+   its state-predicate form is proved. Expiry (7 days, real wall clock) is not modelled. *)
+From Coq Require Import List NArith ZArith Bool String Sorting.Sorted.
 Import ListNotations.
 Require Import V.lib.Bytes V.models.Notices V.proofs.NoticesProofs.
+Require V.gen.NoticeTypes.
 Open Scope Z_scope.
 
-Theorem C08_bump_strict : forall c l, l < bump c (Some l).
-Proof. exact bump_gt. Qed.
-Print Assumptions C08_bump_strict.
+(* every new-or-repeated occurrence gets an occurrence time strictly greater than all earlier ones, whatever the
+   clock reads (flag_stamps lists the last-repeated times handed out to the new-or-repeated additions, in order) *)
+Theorem C08_timestamps_strict : forall l : list addargs,
+  forallb add_server_clock l = true -> StronglySorted Z.lt (flag_stamps empty_state l).
+Proof. exact timestamps_strict. Qed.
+Print Assumptions C08_timestamps_strict.
+
+(* ... and strictly greater than the last-repeated time of every notice in the state *)
+Theorem C08_new_stamp_after_all : forall l a st' id,
+  forallb add_server_clock l = true -> a_time a = None ->
+  add_notice (reach l) a = Some (st', true, id) ->
+  exists n', find (same_key (a_user a) (a_type a) (a_key a)) (s_notices st') = Some n' /\
+             forall m, In m (s_notices (reach l)) -> n_lr m < n_lr n'.
+Proof. exact new_stamp_after_all. Qed.
+Print Assumptions C08_new_stamp_after_all.
+
+(* exactly once: in every history, every answer `out` to a poll of a client with filter f consists exactly of the
+   notices that match f and had a new-or-repeated occurrence since the client's previous poll (`pend` is the list of
+   the keys of those occurrences, rebuilt from empty at every poll): nothing else is returned (so a notice is never
+   returned twice for one occurrence), nothing pending is missed, no notice appears twice in one answer, and the
+   answer is ordered by last-repeated time *)
+Theorem C08_exactly_once : forall (f : nfilter) (evs : list event) (out : list notice) (pend : list nkey),
+  forallb ev_server_clock evs = true ->
+  In (out, pend) (hrun f empty_state None [] evs) ->
+  (forall n, In n out -> static_match f n = true /\ In (key_of n) pend) /\
+  (forall k, In k pend -> key_static_match f k = true -> exists n, In n out /\ key_of n = k) /\
+  NoDup (map key_of out) /\
+  StronglySorted le_lr out.
+Proof. exact exactly_once. Qed.
+Print Assumptions C08_exactly_once.
+
+(* occurrence order: the order inside an answer is strict (no two notices share a last-repeated time), and by
+   C08_timestamps_strict last-repeated times increase with the order of the occurrences *)
+Theorem C08_occurrence_order : forall (f : nfilter) (evs : list event) (out : list notice) (pend : list nkey),
+  forallb ev_server_clock evs = true ->
+  In (out, pend) (hrun f empty_state None [] evs) ->
+  StronglySorted lt_lr out.
+Proof. exact answers_strictly_ordered. Qed.
+Print Assumptions C08_occurrence_order.
+
+(* repeat-after: a re-occurrence is new-or-repeated exactly when repeat-after is zero or the (bumped) occurrence time
+   is later than last-repeated + repeat-after; otherwise last-repeated is unchanged (so by C08_exactly_once it is not
+   delivered again) *)
+Theorem C08_repeat_after_rule : forall st a n st' flag id,
+  a_time a = None -> add_notice st a = Some (st', flag, id) ->
+  find (same_key (a_user a) (a_type a) (a_key a)) (s_notices st) = Some n ->
+  let T := bump (a_clock a) (s_last_ts st) in
+  flag = ((a_ra a =? 0) || (T >? n_lr n + a_ra a)) /\
+  exists n', find (same_key (a_user a) (a_type a) (a_key a)) (s_notices st') = Some n' /\
+             n_lr n' = (if flag then T else n_lr n) /\ n_occ n' = (n_occ n + 1)%N /\ n_id n' = n_id n /\ id = n_id n.
+Proof. exact repeat_after_rule. Qed.
+Print Assumptions C08_repeat_after_rule.
+
+Theorem C08_repeat_after_suppressed : forall st a n st' flag id,
+  a_time a = None -> add_notice st a = Some (st', flag, id) ->
+  find (same_key (a_user a) (a_type a) (a_key a)) (s_notices st) = Some n ->
+  a_ra a <> 0 -> bump (a_clock a) (s_last_ts st) <= n_lr n + a_ra a ->
+  flag = false /\
+  exists n', find (same_key (a_user a) (a_type a) (a_key a)) (s_notices st') = Some n' /\
+             n_lr n' = n_lr n /\ n_occ n' = (n_occ n + 1)%N.
+Proof. exact repeat_after_suppressed. Qed.
+Print Assumptions C08_repeat_after_suppressed.
+
+(* owner only: State.Notices with a user filter returns only public notices and that user's *)
+Theorem C08_owner_only_state : forall st f u n,
+  f_user f = Some u -> In n (notices st f) -> n_user n = None \/ n_user n = Some u.
+Proof. exact notices_owner_only. Qed.
+Print Assumptions C08_owner_only_state.
+
+(* ... and GET /v2/notices from a non-root uid: its effective user filter is its own uid (it cannot name another
+   user or all users), so it only ever receives public notices and its own; without a uid it is refused *)
+Theorem C08_owner_only_api : forall st q uid n,
+  q_uid q = Some uid -> uid <> 0%N -> In n (snd (api_get st q)) -> n_user n = None \/ n_user n = Some uid.
+Proof. exact api_owner_only. Qed.
+Print Assumptions C08_owner_only_api.
+
+Theorem C08_api_filter_nonroot : forall q uid f,
+  q_uid q = Some uid -> uid <> 0%N -> api_filter q = ApiFilter f ->
+  f_user f = Some uid /\ q_user_id q = [] /\ q_users q = [].
+Proof. exact api_filter_nonroot. Qed.
+Print Assumptions C08_api_filter_nonroot.
+
+Theorem C08_api_no_uid_forbidden : forall q, q_uid q = None -> api_filter q = ApiForbidden.
+Proof. exact api_no_uid_forbidden. Qed.
+Print Assumptions C08_api_no_uid_forbidden.
+
+(* waiter wake-up — PARTIAL. Full statement: a client blocked in WaitNotices is woken when a matching notice occurs.
+   Proved: the state-predicate form. (1) after a new-or-repeated addition (exactly the case in which AddNotice calls
+   noticeCond.Broadcast) whose notice matches the waiter's filter, WaitNotices' return condition holds;
+   (2) an addition that is not new-or-repeated (no Broadcast) never turns a blocked waiter's condition true, so no
+   wake-up is missed. Missing: that sync.Cond.Broadcast actually wakes the goroutine (Go runtime, not modelled). *)
+Theorem C08_waiter_enabled_partial : forall st a st' id f n',
+  good st -> a_time a = None -> add_notice st a = Some (st', true, id) ->
+  find (same_key (a_user a) (a_type a) (a_key a)) (s_notices st') = Some n' -> matches f n' = true ->
+  wait_enabled st' f = true.
+Proof. exact waiter_enabled. Qed.
+Print Assumptions C08_waiter_enabled_partial.
+
+Theorem C08_no_missed_wakeup : forall st a st' id f,
+  good st -> a_time a = None -> add_notice st a = Some (st', false, id) ->
+  wait_enabled st f = false -> wait_enabled st' f = false.
+Proof. exact no_missed_wakeup. Qed.
+Print Assumptions C08_no_missed_wakeup.
+
+(* why the server-clock hypothesis is there: with an explicit AddNoticeOptions.Time (no production call site sets it;
+   checked by the translator noticetime on every run) a pending matching notice can be stamped before the client's
+   cursor and is then never delivered *)
+Theorem C08_explicit_time_refuted :
+  exists f evs out pend k,
+    In (out, pend) (hrun f empty_state None [] evs) /\ In k pend /\ key_static_match f k = true /\
+    ~ exists n, In n out /\ key_of n = k.
+Proof. exact explicit_time_refuted. Qed.
+Print Assumptions C08_explicit_time_refuted.
+
+(* ... and the guard on the real code, re-checked on every run: gen/NoticeTypes.v (translator noticetypes) lists every
+   place outside tests that sets AddNoticeOptions.Time; there is none *)
+Theorem C08_no_explicit_time_call_site : NoticeTypes.explicit_time_sites = [].
+Proof. reflexivity. Qed.
+Print Assumptions C08_no_explicit_time_call_site.
+
+(* ---- non-vacuity: a history with same-tick and backwards clocks, a suppressed repeat and two polls *)
+Example C08_history : list event :=
+  [EAdd (mkA 10 None (ty 1) (ky 0) 0 None); EAdd (mkA 10 (Some 1000%N) (ty 0) (ky 1) 0 None); EPoll;
+   EAdd (mkA 3 None (ty 1) (ky 0) 100 None); EAdd (mkA 3 (Some 1000%N) (ty 0) (ky 1) 0 None); EPoll].
+Example C08_history_server_clock : forallb ev_server_clock C08_history = true.
+Proof. reflexivity. Qed.
+Example C08_history_answers :
+  map (fun r => (map n_id (fst r), map n_lr (fst r), List.length (snd r))) (hrun no_filter empty_state None [] C08_history)
+  = [([1%N; 2%N], [10; 11], 2%nat); ([2%N], [13], 1%nat)].
+Proof. vm_compute. reflexivity. Qed.
+Example C08_stamps_example :
+  flag_stamps empty_state [mkA 10 None (ty 1) (ky 0) 0 None; mkA 10 None (ty 1) (ky 1) 0 None; mkA 3 None (ty 1) (ky 0) 0 None]
+  = [10; 11; 12].
+Proof. vm_compute. reflexivity. Qed.
+Example C08_api_nonroot_example :
+  api_filter (mkQ (Some 1000%N) [] [] [bs "warning,bogus"] [] None) = ApiFilter (mkF (Some 1000%N) [ty 1] [] None).
+Proof. vm_compute. reflexivity. Qed.
+Example C08_api_nonroot_forbidden_example :
+  api_filter (mkQ (Some 1000%N) [bs "1000"] [] [] [] None) = ApiForbidden.
+Proof. vm_compute. reflexivity. Qed.
